@@ -156,6 +156,61 @@ pub fn run(args: &Args) {
             "cost":fv(c.iter()),"r":[fv(r1.iter()), fv(r2_.iter())]}));
     }
     let _ = from_json_str::<PcSaftParameters>;
+    // ---- the Estimator object through TLC-generated construction histories (new with k entries, add_data, cost after every operation)
+    if let Some(planf) = args.plan.as_ref() {
+        let plan: Vec<Value> = std::fs::read_to_string(planf).unwrap().lines().map(|l| serde_json::from_str(l).unwrap()).collect();
+        let take = if args.thorough { plan.len() } else { 150 };
+        let mut idx: Vec<usize> = (0..plan.len()).collect();
+        rng.shuffle(&mut idx);
+        if let Some((name, eos)) = models.first() {
+            // three data sets with perturbed targets
+            let temps = Temperature::from_reduced(Array1::from_vec(vec![250.0, 280.0, 310.0]));
+            let mut psat = vec![]; let mut rhol = vec![]; let mut visc = vec![]; let mut ps = vec![];
+            for t in [250.0, 280.0, 310.0] {
+                let v = PhaseEquilibrium::pure(eos, Temperature::from_reduced(t), None, Default::default());
+                let p = v.as_ref().map(|v| v.vapor().pressure(Contributions::Total).convert_into(PASCAL)).unwrap_or(f64::NAN);
+                psat.push(p * (1.0 + rng.range(-0.3, 0.3)));
+                let pl = 1.5 * p;
+                ps.push(pl);
+                let st = State::new_npt(eos, Temperature::from_reduced(t), pl * PASCAL, &(arr1(&[1.0]) * MOL), feos_core::DensityInitialization::Liquid);
+                rhol.push(st.as_ref().map(|s| s.mass_density().convert_into(KILOGRAM / METER.powi::<P3>())).unwrap_or(f64::NAN) * (1.0 + rng.range(-0.3, 0.3)));
+                visc.push(st.as_ref().ok().and_then(|s| s.viscosity().ok()).map(|v| v.convert_into(MILLI * PASCAL * SECOND)).unwrap_or(f64::NAN) * (1.0 + rng.range(-0.3, 0.3)));
+            }
+            let pres = Pressure::from_reduced(Array1::from_vec(ps.clone())) * (PASCAL.to_reduced());
+            let liq = vec![Phase::Liquid; 3];
+            let a = |v: &Vec<f64>| Array1::from_vec(v.clone());
+            let pool: Vec<(&str, Arc<dyn DataSet<E>>)> = vec![
+                ("vapor_pressure", Arc::new(VaporPressure::new(a(&psat) * PASCAL, temps.clone(), false, None, None))),
+                ("liquid_density", Arc::new(LiquidDensity::new(a(&rhol) * (KILOGRAM / METER.powi::<P3>()), temps.clone(), pres.clone()))),
+                ("viscosity", Arc::new(Viscosity::new(a(&visc) * (MILLI * PASCAL * SECOND), temps.clone(), pres.clone(), Some(&liq)))),
+            ];
+            let ds_of = |n: &str| pool.iter().find(|p| p.0 == n).unwrap().1.clone();
+            let loss_of = |n: &str| if n == "linear" { Loss::Linear } else { Loss::Huber(0.2) };
+            let ent = |e: &Value| json!({"ds": e["ds"], "w": e["w"], "loss": e["loss"], "f": if e["loss"] == json!("linear") { "1" } else { "0.2" }});
+            for (hn, &hi) in idx.iter().take(take).enumerate() {
+                let h = &plan[hi];
+                let news: Vec<Value> = h["new"].as_array().cloned().unwrap_or_default();
+                let adds: Vec<Value> = h["adds"].as_array().cloned().unwrap_or_default();
+                let case = format!("{}/history{}", name, hn);
+                let mut est = Estimator::new(news.iter().map(|e| ds_of(e["ds"].as_str().unwrap())).collect(),
+                    news.iter().map(|e| e["w"].as_str().unwrap().parse::<f64>().unwrap()).collect(), news.iter().map(|e| loss_of(e["loss"].as_str().unwrap())).collect());
+                tr.ev(json!({"ev":"EstNew","case":case,"entries":news.iter().map(ent).collect::<Vec<_>>()}));
+                let mut cost_ev = |est: &Estimator<E>, tr: &mut Tr, hist: String| {
+                    let c = est.cost(eos);
+                    let r: Vec<Value> = est.relative_difference(eos).map(|v| v.iter().map(|a| fv(a.iter())).collect()).unwrap_or_default();
+                    let names: Vec<String> = est.datasets().iter().map(|d| d.target_str().to_owned()).collect();
+                    let kinds: Vec<&str> = names.iter().map(|n| if n.contains("vapor") { "vapor_pressure" } else if n.contains("density") { "liquid_density" } else { "viscosity" }).collect();
+                    tr.ev(json!({"ev":"EstCost","case":case,"history":hist,"ok":c.is_ok(),"cost":fv(c.map(|a| a.to_vec()).unwrap_or_default().iter()),"r":r,"datasets":kinds}));
+                };
+                if !news.is_empty() { cost_ev(&est, &mut tr, format!("new({})", news.len())); }
+                for (k, e) in adds.iter().enumerate() {
+                    est.add_data(&ds_of(e["ds"].as_str().unwrap()), e["w"].as_str().unwrap().parse::<f64>().unwrap(), loss_of(e["loss"].as_str().unwrap()));
+                    tr.ev(json!({"ev":"EstAdd","case":case,"entry":ent(e)}));
+                    cost_ev(&est, &mut tr, format!("new({})+add_data x{}", news.len(), k + 1));
+                }
+            }
+        }
+    }
     let n = tr.finish();
     println!("C20 trace: {} lines", n);
 }
